@@ -234,6 +234,7 @@ class Program:
                     raise AnalysisError('cannot parse %s: %s' % (rel, e))
                 inline.PROTECTED[id(trees[name])] = set()
                 logs[name] = inline.restore_renamed(trees[name], name)
+                logs[name] += inline.restore_renamed_attributes(trees[name], name)
             for name, extra in inline.restore_cross_module(trees).items():
                 logs[name] = logs.get(name, []) + extra
         for name, text in sources.items():
